@@ -34,6 +34,9 @@ impl Value {
 pub uninterp spec fn fadd(a: f64, b: f64) -> f64;
 pub uninterp spec fn fneg(a: f64) -> f64;
 pub uninterp spec fn fbitnot(a: f64) -> f64;
+// identity on doubles (tool quirk, measured: Verus does not instantiate `forall|a: f64|` with a double that was
+// destructured out of an enum payload; the result of an exec function is accepted)
+#[verifier::external_body] fn f64_id(x: f64) -> (r: f64) ensures r == x { x }
 #[verifier::external_body] fn f64_add(a: f64, b: f64) -> (r: f64) ensures r == fadd(a, b) { unimplemented!() }
 #[verifier::external_body] fn f64_neg(a: f64) -> (r: f64) ensures r == fneg(a) { unimplemented!() }
 #[verifier::external_body] fn f64_bitnot(a: f64) -> (r: f64) ensures r == fbitnot(a) { unimplemented!() }
@@ -60,8 +63,8 @@ impl Vm {
     //@fn file=yarel/src/vm.rs path=Vm::binary_op_impl ret=r
     //@  rewrite R1
     //@  sig "op: fn(f64, f64) -> Value" => "op: impl Fn(f64, f64) -> Value"
-    //@  subst "self.push(op(first, second));" => "let verif_v = op(first, second); self.push(verif_v);"
-    //@  requires old(self).stack.len() >= 2, forall|a: f64, b: f64| #[trigger] call_requires(op, (a, b))
+    //@  subst "self.push(op(first, second));" => "let verif_v = op(f64_id(first), f64_id(second)); self.push(verif_v);"
+    //@  requires old(self).stack.len() >= 2, forall|a: f64, b: f64| call_requires(op, (a, b))
     //@  ensures @left_operand_is_the_one_pushed_first (old(self).top(1) is Number && old(self).top(0) is Number) ==> r is Ok && final(self).stack.len() == old(self).stack.len() - 1 && final(self).stack.drop_last() == old(self).below2() && call_ensures(op, (old(self).top(1)->Number_0, old(self).top(0)->Number_0), final(self).stack.last()) && final(self).raised == old(self).raised
     //@  ensures @non_numeric_operands_are_a_type_error !(old(self).top(1) is Number && old(self).top(0) is Number) ==> final(self).raised == Some(ErrorKind::TypeError)
     //@end
